@@ -52,6 +52,7 @@ func main() {
 			os.Exit(2)
 		}
 		rules.DebugModes(prog)
+		rules.DebugClamp(prog)
 		return
 	}
 	if len(os.Args) < 3 || os.Args[1] != "check" {
